@@ -10,13 +10,56 @@
 //! histories the number of executions of pick_a, pick_b and reader is compared with a reference
 //! model of minimal re-execution (C02: a body runs only if it never ran or a DIRECT input
 //! changed since it last ran; re-interning an equal value is not a change).
-//! Exit 0 = all agree; exit 1 = a stale value or a wrong execution count (history printed).
+//! Every history is run twice: with the default cache of recent top-level calls and with a
+//! cache of ONE (a collection then drops everything but the last query called and what it
+//! depends on; a MemoRef held by the survivor must stay readable).
+//! Exit 0 = all agree; exit 1 = a stale value, a panic inside pico or a wrong execution count.
 use std::sync::atomic::{AtomicUsize, Ordering};
 
 use pico::{Database, MemoRef, SourceId, Storage};
 use pico_macros::{Db, Source, memo};
 
-static RUNS: [AtomicUsize; 3] = [AtomicUsize::new(0), AtomicUsize::new(0), AtomicUsize::new(0)];
+// In the cache-of-one runs of at most 4 steps every deallocation is quarantined (recorded,
+// poisoned, never reused), so that a reference into freed memory is DETECTED from its address
+// instead of being read (deterministic, no reliance on a crash).
+use std::alloc::{GlobalAlloc, Layout, System};
+use std::sync::atomic::AtomicBool;
+const MAX_FREED: usize = 1 << 22;
+static FREED_START: [AtomicUsize; MAX_FREED] = [const { AtomicUsize::new(0) }; MAX_FREED];
+static FREED_LEN: [AtomicUsize; MAX_FREED] = [const { AtomicUsize::new(0) }; MAX_FREED];
+static N_FREED: AtomicUsize = AtomicUsize::new(0);
+static FREED_FROM: AtomicUsize = AtomicUsize::new(0);
+static QUARANTINE: AtomicBool = AtomicBool::new(false);
+struct Quarantine;
+unsafe impl GlobalAlloc for Quarantine {
+    unsafe fn alloc(&self, l: Layout) -> *mut u8 { unsafe { System.alloc(l) } }
+    unsafe fn dealloc(&self, p: *mut u8, l: Layout) {
+        if QUARANTINE.load(Ordering::Relaxed) {
+            let i = N_FREED.fetch_add(1, Ordering::SeqCst);
+            if i < MAX_FREED {
+                FREED_START[i].store(p as usize, Ordering::SeqCst); FREED_LEN[i].store(l.size(), Ordering::SeqCst);
+                unsafe { std::ptr::write_bytes(p, 0xDE, l.size()); }
+                return;
+            }
+        }
+        unsafe { System.dealloc(p, l) }
+    }
+}
+#[global_allocator]
+static ALLOC: Quarantine = Quarantine;
+/// was `addr` freed during the current history?
+fn is_freed(addr: usize) -> bool {
+    let n = N_FREED.load(Ordering::SeqCst).min(MAX_FREED);
+    (FREED_FROM.load(Ordering::SeqCst)..n).any(|i| { let s = FREED_START[i].load(Ordering::SeqCst); addr >= s && addr < s + FREED_LEN[i].load(Ordering::SeqCst) })
+}
+fn checked<'a>(r: &'a Row, who: &str, step: usize) -> Result<&'a Row, String> {
+    if QUARANTINE.load(Ordering::Relaxed) && is_freed(r as *const Row as usize) {
+        return Err(format!("step {step}: the reference {who} hands out points into memory freed by a collection"));
+    }
+    Ok(r)
+}
+
+static RUNS: [AtomicUsize; 4] = [AtomicUsize::new(0), AtomicUsize::new(0), AtomicUsize::new(0), AtomicUsize::new(0)];
 
 #[derive(Db, Default)]
 struct TestDatabase { storage: Storage<Self> }
@@ -33,6 +76,9 @@ fn rows(db: &TestDatabase, table: SourceId<Table>) -> Vec<Row> { db.get(table).r
 fn pick_a(db: &TestDatabase, table: SourceId<Table>) -> MemoRef<Row> { RUNS[0].fetch_add(1, Ordering::SeqCst); db.intern_ref(&rows(db, table)[0]) }
 #[memo]
 fn pick_b(db: &TestDatabase, table: SourceId<Table>) -> MemoRef<Row> { RUNS[1].fetch_add(1, Ordering::SeqCst); db.intern_ref(&rows(db, table)[0]) }
+/// a second producer over the SAME table as pick_a
+#[memo]
+fn pick_a2(db: &TestDatabase, table: SourceId<Table>) -> MemoRef<Row> { RUNS[3].fetch_add(1, Ordering::SeqCst); db.intern_ref(&rows(db, table)[0]) }
 #[memo]
 fn pick(db: &TestDatabase, table: SourceId<Table>) -> MemoRef<Row> { db.intern_ref(&rows(db, table)[0]) }
 #[memo]
@@ -40,14 +86,16 @@ fn reader(db: &TestDatabase, table: SourceId<Table>) -> String { RUNS[2].fetch_a
 
 const FIRST: [&str; 2] = ["shared", "other"];
 const SECOND: [&str; 2] = ["x", "y"];
-fn table(key: &'static str, v: usize) -> Table {
-    Table { key, rows: vec![Row { name: FIRST[v % 2].to_string(), payload: "same".to_string() }, Row { name: SECOND[v / 2].to_string(), payload: "p".to_string() }] }
+/// with `disjoint` the first rows of table b are never equal to a first row of table a
+fn first_name(key: &str, v: usize, disjoint: bool) -> String { if disjoint && key == "b" { format!("{}_b", FIRST[v % 2]) } else { FIRST[v % 2].to_string() } }
+fn table(key: &'static str, v: usize, disjoint: bool) -> Table {
+    Table { key, rows: vec![Row { name: first_name(key, v, disjoint), payload: "same".to_string() }, Row { name: SECOND[v / 2].to_string(), payload: "p".to_string() }] }
 }
-/// ops: 0..4 set a := v, 4..8 set b := v, 8 call pick_a, 9 call pick_b, 10 call reader, 11 collect
-const N_OPS: usize = 12;
+/// ops: 0..4 set a := v, 4..8 set b := v, 8 call pick_a, 9 call pick_b, 10 call reader, 11 collect, 12 call pick_a2
+const N_OPS: usize = 13;
 fn show(h: &[usize]) -> String {
     h.iter().map(|o| match *o { 0..=3 => format!("set a:=({},{})", FIRST[o % 2], SECOND[o / 2]), 4..=7 => format!("set b:=({},{})", FIRST[(o - 4) % 2], SECOND[(o - 4) / 2]),
-        8 => "pick_a".into(), 9 => "pick_b".into(), 10 => "reader".into(), _ => "collect".into() }).collect::<Vec<_>>().join("; ")
+        8 => "pick_a".into(), 9 => "pick_b".into(), 10 => "reader".into(), 11 => "collect".into(), _ => "pick_a2".into() }).collect::<Vec<_>>().join("; ")
 }
 
 /// reference model of minimal re-execution (the same as pico_history_search's): a source has a
@@ -68,28 +116,37 @@ impl Node {
     }
 }
 #[derive(Default)]
-struct Model { ver: [usize; 2], rows: [Node; 2], pick_a: Node, pick_b: Node, pick: Node, reader: Node }
+struct Model { ver: [usize; 2], rows: [Node; 2], pick_a: Node, pick_b: Node, pick: Node, reader: Node, pick_a2: Node }
 
-fn run(h: &[usize]) -> Result<(), String> {
+fn run(h: &[usize], lru_capacity: Option<usize>) -> Result<(), String> {
     for r in &RUNS { r.store(0, Ordering::SeqCst); }
-    let mut db = TestDatabase::default();
+    // with a cache of ONE recent top-level call, a collection drops every query but the last
+    // one called (and what it depends on): references held by the survivor must stay readable
+    let mut db = match lru_capacity {
+        Some(c) => TestDatabase { storage: Storage::new_with_capacity(std::num::NonZeroUsize::new(c).unwrap()) },
+        None => TestDatabase::default(),
+    };
+    // cache of one: equal rows of DIFFERENT tables are avoided (that sharing + eviction is the
+    // recorded finding F-C03a, reproduced by pico_intern_dangling); producers over the same
+    // table still share their interned node
+    let disjoint = lru_capacity.is_some() && std::env::var("VERIF_SHARE_ACROSS_TABLES").is_err();
     let mut v = [0usize, 0usize];
-    let ta = db.set(table("a", v[0]));
-    let tb = db.set(table("b", v[1]));
+    let ta = db.set(table("a", v[0], disjoint));
+    let tb = db.set(table("b", v[1], disjoint));
     let mut m = Model::default();
     let collected = h.contains(&11);
     for (i, o) in h.iter().enumerate() {
         match *o {
-            0..=3 => { if v[0] != *o { m.ver[0] += 1; } v[0] = *o; db.set(table("a", v[0])); }
-            4..=7 => { if v[1] != *o - 4 { m.ver[1] += 1; } v[1] = *o - 4; db.set(table("b", v[1])); }
+            0..=3 => { if v[0] != *o { m.ver[0] += 1; } v[0] = *o; db.set(table("a", v[0], disjoint)); }
+            4..=7 => { if v[1] != *o - 4 { m.ver[1] += 1; } v[1] = *o - 4; db.set(table("b", v[1], disjoint)); }
             8 => {
-                let got = pick_a(&db, ta).lookup(&db).name.clone();
+                let got = checked(pick_a(&db, ta).lookup(&db), "pick_a", i + 1)?.name.clone();
                 if got != FIRST[v[0] % 2] { return Err(format!("step {}: pick_a reads {got:?} through its reference, the first row of a is {:?}", i + 1, FIRST[v[0] % 2])); }
                 m.rows[0].ensure(m.ver[0], v[0]); let r = m.rows[0].rev; m.pick_a.ensure(r, v[0] % 2);
             }
             9 => {
-                let got = pick_b(&db, tb).lookup(&db).name.clone();
-                if got != FIRST[v[1] % 2] { return Err(format!("step {}: pick_b reads {got:?} through its reference, the first row of b is {:?}", i + 1, FIRST[v[1] % 2])); }
+                let got = checked(pick_b(&db, tb).lookup(&db), "pick_b", i + 1)?.name.clone();
+                if got != first_name("b", v[1], disjoint) { return Err(format!("step {}: pick_b reads {got:?} through its reference, the first row of b is {:?}", i + 1, first_name("b", v[1], disjoint))); }
                 m.rows[1].ensure(m.ver[1], v[1]); let r = m.rows[1].rev; m.pick_b.ensure(r, v[1] % 2);
             }
             10 => {
@@ -97,13 +154,18 @@ fn run(h: &[usize]) -> Result<(), String> {
                 if got != FIRST[v[0] % 2] { return Err(format!("step {}: reader returns {got:?}, the first row of a is {:?}", i + 1, FIRST[v[0] % 2])); }
                 m.rows[0].ensure(m.ver[0], v[0]); let r = m.rows[0].rev; m.pick.ensure(r, v[0] % 2); let r2 = m.pick.rev; m.reader.ensure(r2, v[0] % 2);
             }
-            _ => { db.run_garbage_collection(); }
+            11 => { db.run_garbage_collection(); }
+            _ => {
+                let got = checked(pick_a2(&db, ta).lookup(&db), "pick_a2", i + 1)?.name.clone();
+                if got != FIRST[v[0] % 2] { return Err(format!("step {}: pick_a2 reads {got:?} through its reference, the first row of a is {:?}", i + 1, FIRST[v[0] % 2])); }
+                m.rows[0].ensure(m.ver[0], v[0]); let r = m.rows[0].rev; m.pick_a2.ensure(r, v[0] % 2);
+            }
         }
         if !collected {
-            let got = [RUNS[0].load(Ordering::SeqCst), RUNS[1].load(Ordering::SeqCst), RUNS[2].load(Ordering::SeqCst)];
-            let expected = [m.pick_a.runs, m.pick_b.runs, m.reader.runs];
+            let got = [RUNS[0].load(Ordering::SeqCst), RUNS[1].load(Ordering::SeqCst), RUNS[2].load(Ordering::SeqCst), RUNS[3].load(Ordering::SeqCst)];
+            let expected = [m.pick_a.runs, m.pick_b.runs, m.reader.runs, m.pick_a2.runs];
             if got != expected {
-                return Err(format!("after step {}: bodies ran [pick_a, pick_b, reader] = {got:?} times, minimal re-execution is {expected:?}", i + 1));
+                return Err(format!("after step {}: bodies ran [pick_a, pick_b, reader, pick_a2] = {got:?} times, minimal re-execution is {expected:?}", i + 1));
             }
         }
     }
@@ -111,6 +173,7 @@ fn run(h: &[usize]) -> Result<(), String> {
 }
 
 fn main() {
+    std::panic::set_hook(Box::new(|_| {}));
     let depth: usize = std::env::args().nth(1).and_then(|s| s.parse().ok()).unwrap_or(5);
     let mut n = 0usize;
     for len in 1..=depth {
@@ -118,10 +181,25 @@ fn main() {
             let mut c = code;
             let h: Vec<usize> = (0..len).map(|_| { let o = c % N_OPS; c /= N_OPS; o }).collect();
             // a history is interesting only if it ends with a call
-            if !(8..=10).contains(h.last().unwrap()) { continue; }
+            if !matches!(h.last().unwrap(), 8..=10 | 12) { continue; }
             n += 1;
-            if let Err(m) = run(&h) { println!("DIFFERENT: history [{}]: {m}", show(&h)); std::process::exit(1); }
+            for cap in [None, Some(1usize)] {
+                if std::env::var("TRACE").is_ok() { eprintln!("{} {:?}", show(&h), cap); }
+                let q = cap.is_some() && h.len() <= 4;
+                FREED_FROM.store(N_FREED.load(Ordering::SeqCst).min(MAX_FREED), Ordering::SeqCst);
+                QUARANTINE.store(q, Ordering::SeqCst);
+                let r = std::panic::catch_unwind(|| run(&h, cap));
+                QUARANTINE.store(false, Ordering::SeqCst);
+                let r = r.unwrap_or_else(|e| {
+                    let msg = e.downcast_ref::<String>().cloned().or_else(|| e.downcast_ref::<&str>().map(|s| s.to_string())).unwrap_or_default();
+                    Err(format!("pico panicked: {msg}"))
+                });
+                if let Err(m) = r {
+                    println!("DIFFERENT: history [{}]{}: {m}", show(&h), if cap.is_some() { " with a cache of 1 recent top-level call" } else { "" });
+                    std::process::exit(1);
+                }
+            }
         }
     }
-    println!("histories={n} (<= {depth} steps): references read current data; pick_a / pick_b / reader re-run minimally");
+    println!("histories={n} (<= {depth} steps; {} deallocations quarantined): references read current data and live memory; pick_a / pick_b / reader / pick_a2 re-run minimally", N_FREED.load(Ordering::SeqCst));
 }
